@@ -111,6 +111,23 @@ def oracle_C07(results, metas, st):
     out = []
     for r in results:
         c = r['case']; cx = r['cxx']
+        if c[2] == 'run' and isinstance(cx, list):
+            for d in dumps_of(cx)[-1:]:
+                if d[0] != 'vegas': continue
+                rs = chk_results(d)
+                grids = [x['extra'][0] for x in rs]
+                if isinstance(d[4], list) and d[4] and d[4][0] == 'ok': grids.append(d[4][1])
+                for k, g in enumerate(grids):
+                    bins, dims, xs = g[0], g[1], [parse_tok(x) for x in g[2]]
+                    for dd in range(dims):
+                        row = xs[dd * (bins + 1):(dd + 1) * (bins + 1)]
+                        if any(not isnum(x) for x in row): continue        # overflow of the smoothing sums is not claimed
+                        if row[0] != 0 or row[-1] != 1 or any(a > b for a, b in zip(row, row[1:])):
+                            out.append(viol('the grid used for iteration %d is not a valid partition in dimension %d: %s' % (k, dd, [fstr(x) for x in row]), [c])); break
+                for k in range(len(grids) - 1):
+                    if k < len(rs) and all(parse_tok(a) == 0 for a in rs[k]['extra'][1]) and grids[k + 1] != grids[k]:
+                        out.append(viol('iteration %d sampled only zeros but the grid changed' % k, [c])); break
+            continue
         if not isinstance(cx, list) or not cx or cx[0] != 'ok':
             continue
         if c[2] == 'refine_pdf':
@@ -154,6 +171,23 @@ def oracle_C08(results, metas, st):
     out = []
     for r in results:
         c = r['case']; cx = r['cxx']
+        if c[2] == 'run' and isinstance(cx, list):
+            fmt = FMTS[c[1]]
+            for d in dumps_of(cx)[-1:]:
+                if d[0] != 'mc': continue
+                rs = chk_results(d)
+                ws_list = [[parse_tok(x) for x in x_['extra'][1]] for x_ in rs]
+                if isinstance(d[5], list) and d[5] and d[5][0] == 'ok': ws_list.append([parse_tok(x) for x in d[5][1]])
+                for k, ws in enumerate(ws_list):
+                    if any(not isnum(w) for w in ws):
+                        out.append(viol('the channel weights used for iteration %d are not finite: %s' % (k, [fstr(w) for w in ws]), [c])); break
+                    if any(w < 0 for w in ws) or abs(sum(ws) - 1) > (2 * len(ws) + 4) * fmt.u:
+                        out.append(viol('the channel weights used for iteration %d are not a probability vector (sum %s): %s' % (k, fstr(sum(ws)), [fstr(w) for w in ws]), [c])); break
+                    if k and any(a == 0 and b != 0 for a, b in zip(ws_list[k - 1], ws)):
+                        out.append(viol('a disabled channel was re-enabled in iteration %d' % k, [c])); break
+                    if k and k - 1 < len(rs) and all(parse_tok(a) == 0 for a in rs[k - 1]['extra'][0]) and ws != ws_list[k - 1]:
+                        out.append(viol('iteration %d sampled only zeros but the channel weights changed' % (k - 1), [c])); break
+            continue
         if c[2] != 'refine_w' or not isinstance(cx, list) or not cx or cx[0] != 'ok':
             continue
         fmt = FMTS[c[1]]
